@@ -1,6 +1,6 @@
 (* C06 — WIF private-key strings round-trip, are canonical and checksum-guarded.
    Only statements; every proof is `exact <lemma proved in Wif/WifProofs.v>`. *)
-From BU Require Import Lib.Bytes Lib.Sha256 Base58.Base58 Gen.Nets Wif.Wif Wif.WifProofs.
+From BU Require Import Lib.Bytes Lib.Sha256 Base58.Base58 Gen.Nets Wif.Wif Wif.WifProofs Wif.WifHist Wif.WifHistProofs.
 
 (* every 32-byte key x compression flag x network id: the WIF string decodes back to the same
    scalar, flag and network id; the decoded key serialises (PrivKey.Serialize) to the same 32 bytes,
@@ -67,4 +67,31 @@ Proof. vm_compute. reflexivity. Qed.
 Example C06_example_known :
   wif_string (new_wif (repeat 0 31 ++ [1]) 128 false) =
   [53;72;112;72;97;103;84;54;53;84;90;122;71;49;80;72;51;67;83;117;54;51;107;56;68;98;112;118;68;56;115;53;105;112;52;110;69;66;51;107;69;115;114;101;65;110;99;104;117;68;102].
+Proof. vm_compute. reflexivity. Qed.
+
+(* ---------- histories on ONE WIF value (round 4) ----------
+   CompressPubKey is an exported field and String / SerializePubKey can be called in any order, any number of
+   times.  For EVERY history of flag assignments and calls, every answer is the answer of a fresh value built
+   from the original key, the original network and the flag in force at that call (nothing is remembered
+   between calls) ... *)
+Theorem C06_history : forall (base_mult : N -> N * N) key net ops flag,
+  wrun base_mult (new_wif key net flag) ops = wspec base_mult key net flag ops.
+Proof. exact history_spec. Qed.
+Print Assumptions C06_history.
+
+(* ... and after every history the value still is (key, net, flag in force): its string decodes back to
+   the same key bytes, that flag and that network *)
+Theorem C06_history_then_decode : forall (base_mult : N -> N * N) key net ops flag,
+  Bytes key -> length key = 32%nat -> net < 256 ->
+  let w := wfinal base_mult (new_wif key net flag) ops in
+  decode_wif (wif_string w) = Ok (new_wif key net (flag_after flag ops)) /\
+  priv_serialize w = key /\ w_compress w = flag_after flag ops /\ is_for_net w net = true.
+Proof. exact history_then_decode. Qed.
+Print Assumptions C06_history_then_decode.
+
+(* a concrete history: the two serialisations alternate with the flag (33 / 65 bytes), the strings too (52 / 51 characters) *)
+Example C06_example_history :
+  map (@length N) (wrun (fun _ => (1, 2)) (new_wif (repeat 0 31 ++ [1]) 128 false)
+                        [Ser; Str; SetFlag true; Ser; Str; SetFlag false; Ser]) =
+  [65; 51; 0; 33; 52; 0; 65]%nat.
 Proof. vm_compute. reflexivity. Qed.
